@@ -66,6 +66,15 @@ def vcs_handle_implies_commit(ctx, root: str = "cli._update") -> bool:
     return all("cfg.commit" in rpc.reach(n.id).atoms and rpc.reach(n.id).implies(BF.var("cfg.commit")) for n in v_assigns)
 
 
+# the VCS verb each command name stands for (second word of the template)
+VCS_VERBS = {
+    "git": {"is_usable": "rev-parse", "fetch": "fetch", "ls_tags": "tag", "ls_tags_branch": "tag", "status": "status", "add_path": "add", "commit": "commit", "tag": "tag",
+            "tag_light": "tag", "push_tag": "push", "push": "push", "show_remotes": ("config", "remote"), "ls_branches": "branch"},
+    "hg": {"is_usable": "root", "fetch": "pull", "ls_tags": "tags", "ls_tags_branch": "log", "status": "status", "add_path": "add", "commit": "commit", "tag": "tag",
+           "tag_light": "tag", "push_tag": "push", "push": "push", "show_remotes": "paths"},
+}
+
+
 def run(ctx) -> None:
     prog, effects, cfgs = ctx.prog, ctx.effects, ctx.cfgs
     ctx.rule("R1", "step order: no path executes a later step before an earlier one")
@@ -498,6 +507,25 @@ def run(ctx) -> None:
             ctx.check("R8", both or (guard is not None and cmd in table.get(guard, {})), f"command '{cmd}' exists for git and hg" + ("" if both else f" (guarded: {guard} only)"),
                       f"vcs: command '{cmd}' is missing from a command table", f"git: {cmd in table['git']}, hg: {cmd in table['hg']}", loc=s.loc)
     ctx.floor("R8", "VCS command sites", n_sites, 14)
+    # the steps are classified by command *name* (fetch, push, add_path ...): each table entry must run the verb its name stands for,
+    # otherwise "--no-fetch never fetches" or "--dry issues no mutating command" are decided about the wrong commands
+    import shlex as _shlex
+    for vcs_name, verbs in VCS_VERBS.items():
+        for key, want_verb in sorted(verbs.items()):
+            tmpl = table.get(vcs_name, {}).get(key)
+            if tmpl is None:
+                continue
+            try:
+                toks = _shlex.split(tmpl.replace("{{", "{").replace("}}", "}"))
+            except ValueError:
+                toks = tmpl.split()
+            ok_v = len(toks) >= 2 and toks[0] == vcs_name and toks[1] in ((want_verb,) if isinstance(want_verb, str) else want_verb)
+            if ok_v and vcs_name == "git" and toks[1] == "tag":
+                ok_v = ("--list" in toks or "-l" in toks) == key.startswith("ls_")
+            ctx.check("R8", ok_v, f"{vcs_name} '{key}' runs `{vcs_name} {want_verb if isinstance(want_verb, str) else '|'.join(want_verb)}`",
+                      f"vcs.VCS_SUBCOMMANDS_BY_NAME['{vcs_name}']['{key}'] runs another command than its name says",
+                      f"`{tmpl}`: the step named '{key}' (classified {'mutating' if key in ('add_path', 'commit', 'tag', 'tag_light', 'push', 'push_tag') else 'fetch' if key == 'fetch' else 'read-only'}) "
+                      f"executes `{' '.join(toks[:2])}`", loc="src/bumpver/vcs.py", witness={"vcs": vcs_name, "command": key})
 
     # ---------------------------------------------------------------- R7 (config side): tag / push without commit are refused when the config is read
     from sa.report import run_prerequisite
@@ -539,6 +567,24 @@ def run(ctx) -> None:
                 continue
             if n not in maybe_empty:
                 live.append(n)
+    # ... and for git the remote the current branch tracks: a reachable `return <match>['remote']` under `<match>['is_current']`,
+    # for the matches of BRANCH_RE.finditer over the branch listing
+    tracked = []
+    for n in gcfg_.nodes:
+        if n.kind == "stmt" and isinstance(n.ast, ast.Return) and n.ast.value is not None and n.id in gcfg_.reachable():
+            v = shapes.inline(gr, n.ast.value, prog)
+            if isinstance(v, ast.Subscript) and const_str(v.slice) == "remote":
+                r = gpc_.reach(n.id)
+                cur = [a for a in r.atoms if a.replace('"', "'").endswith("['is_current']")]
+                tracked.append((n, bool(cur) and r.implies(BF.var(cur[0])) and not r.is_false()))
+    loops_ = [l_ for l_ in walk_no_nested(gr.node) if isinstance(l_, ast.For) and isinstance(l_.iter, ast.Call) and unparse(l_.iter.func) == "BRANCH_RE.finditer"]
+    has_branch_listing = any(isinstance(c_, ast.Call) and c_.args and const_str(c_.args[0]) == "ls_branches" for c_ in ast.walk(gr.node))
+    if has_branch_listing:
+        ok_tr = len(tracked) == 1 and tracked[0][1] and len(loops_) == 1 and any(x is tracked[0][0].ast for x in ast.walk(loops_[0]))
+        ctx.check("R9", ok_tr, "get_remote (git): the remote of the current branch is returned - `return m['remote']` under `m['is_current']` for m in BRANCH_RE.finditer(listing)",
+                  "vcs.VCSAPI.get_remote: the remote that the current branch tracks is not returned",
+                  f"returns of m['remote']: {[(unparse(n_.ast), ok_) for n_, ok_ in tracked]}, finditer loops: {len(loops_)}: with push enabled on a branch that tracks a remote not named origin "
+                  "the push step is silently skipped", loc=gr.loc())
     ctx.check("R9", bool(live), "get_remote: a non-empty remote listing is returned (an enabled push is performed on a branch without upstream)",
               "vcs.VCSAPI.get_remote: a listed remote is never returned",
               "no return hands on the `show_remotes` output under a non-empty test: with push enabled and a remote configured the push step is silently skipped",
